@@ -85,7 +85,7 @@ def run(rep):
             [(tc.GT, 'new group'), (tc.GT, 'extend flag')] + tc.MATCHER_FUNCS + tc.PASS_FUNCS + tc.JOINER_FUNCS
     common.load_contracts()
     from contracts.sql import ACCESSOR_TOTAL
-    funcs = funcs + list(ACCESSOR_TOTAL)
+    funcs = funcs + list(ACCESSOR_TOTAL) + [('sqlparse.sql.IdentifierList.get_identifiers', 'body')]
     return generic.run_generic(
         rep, funcs, structural=[replay_options, validation_dominates, rec],
         assumptions=['option values range over None | bool | int | float (finite, inf, nan) | str | other object; objects '
